@@ -32,7 +32,7 @@ def run(ctx: Ctx):
     bi = 0
     for k, strat in enumerate(("continue", "pause")):
         cs = dc.consts(MaxId=7, MaxOps=2, Prios=[5], RelDelays=[0, 1, 2], AbsTimes=[], BadKinds=[], Cmds=CMDS, Bounds=[1, 2, 3, 4],
-                       MaxCmds=8, EndT=4, WarmT=2, AllowFaults=True, Strategy=strat, StratOps=[0, 1])
+                       MaxCmds=8, EndT=4, WarmT=2, AllowFaults=True, Strategy=strat, StratOps=[0, 1], HStopOps=True)
         for beh in dc.simulate(ctx, f"DEVS faults {strat}", cs, num=ctx.pick(120, 1500), depth=60, seed=ctx.seed + 50 + k):
             conc = dd.CONCS_OFF[bi % len(dd.CONCS_OFF)]
             real_strat = strat if strat == "pause" else ("continue", "warn_continue")[bi % 2]
